@@ -344,6 +344,11 @@ impl<'a> CompilerState<'a> {
         }
     }
 
+    fn parse_int(&self, p: Pair<Rule>) -> Result<i32, Error> {
+        let start = p.as_span().start();
+        parse_int(p).ok_or_else(|| self.syntax_error("Invalid or too large integer constant", start))
+    }
+
     // Returns the name, the subscript and the string literals met in the subscript
     // (numbered from first_literal)
     fn parse_identifier(
@@ -468,9 +473,9 @@ impl<'a> CompilerState<'a> {
             .pratt
             .map_primary(|primary| -> Result<Expr, Error> {
                 match primary.as_rule() {
-                    Rule::int => Ok(Expr::Integer(parse_int(
+                    Rule::int => Ok(Expr::Integer(self.parse_int(
                         primary.into_inner().next().unwrap(),
-                    ))),
+                    )?)),
                     Rule::expr => {
                         let first = *literal_counter.lock().unwrap();
                         let res = self.parse_expr_ex(primary.into_inner(), first)?;
@@ -495,7 +500,7 @@ impl<'a> CompilerState<'a> {
                     }
                     Rule::quoted_string => {
                         // Create a temp variable pointing to this quoted_string
-                        let v = self.compile_quoted_string(primary);
+                        let v = self.compile_quoted_string(primary)?;
                         let mut l = literal_counter.lock().unwrap();
                         let name = format!("cctmp{}", l);
                         *l += 1;
@@ -637,9 +642,9 @@ impl<'a> CompilerState<'a> {
             .pratt_init_value
             .map_primary(|primary| -> Result<Expr, Error> {
                 match primary.as_rule() {
-                    Rule::int => Ok(Expr::Integer(parse_int(
+                    Rule::int => Ok(Expr::Integer(self.parse_int(
                         primary.into_inner().next().unwrap(),
-                    ))),
+                    )?)),
                     Rule::expr => {
                         let first = *literal_counter.lock().unwrap();
                         let res = self.parse_expr_ex(primary.into_inner(), first)?;
@@ -664,7 +669,7 @@ impl<'a> CompilerState<'a> {
                     }
                     Rule::quoted_string => {
                         // Create a temp variable pointing to this quoted_string
-                        let v = self.compile_quoted_string(primary);
+                        let v = self.compile_quoted_string(primary)?;
                         let mut l = literal_counter.lock().unwrap();
                         let name = format!("cctmp{}", l);
                         *l += 1;
@@ -876,7 +881,7 @@ impl<'a> CompilerState<'a> {
                                 case_set = (Vec::<i32>::new(), Vec::<StatementLoc<'a>>::new());
                                 last_was_a_statement = false;
                             }
-                            case_set.0.push(parse_int(i.into_inner().next().unwrap()));
+                            case_set.0.push(self.parse_int(i.into_inner().next().unwrap())?);
                         }
                         Rule::statement => {
                             case_set.1.push(self.compile_statement(i)?);
@@ -935,7 +940,7 @@ impl<'a> CompilerState<'a> {
             }
             Rule::asm_statement => {
                 let mut px = pair.into_inner();
-                let mut s = self.compile_quoted_string(px.next().unwrap());
+                let mut s = self.compile_quoted_string(px.next().unwrap())?;
                 let size = if let Some(x) = px.next() {
                     Some(self.parse_calc(x.into_inner())? as u32)
                 } else {
@@ -973,14 +978,14 @@ impl<'a> CompilerState<'a> {
                 })
             }
             Rule::csleep_statement => {
-                let s = parse_int(
+                let s = self.parse_int(
                     pair.into_inner()
                         .next()
                         .unwrap()
                         .into_inner()
                         .next()
                         .unwrap(),
-                );
+                )?;
                 Ok(StatementLoc {
                     pos,
                     label: None,
@@ -1059,7 +1064,7 @@ impl<'a> CompilerState<'a> {
         self.calculator
             .map_primary(|primary| -> Result<i32, Error> {
                 match primary.as_rule() {
-                    Rule::int => Ok(parse_int(primary.into_inner().next().unwrap())),
+                    Rule::int => self.parse_int(primary.into_inner().next().unwrap()),
                     Rule::calc_expr => Ok(self.parse_calc(primary.into_inner())?),
                     Rule::calc_sizeof => Ok(self.parse_sizeof(primary.into_inner())?),
                     rule => unreachable!("parse_calc expected atom, found {:?}", rule),
@@ -1206,7 +1211,7 @@ impl<'a> CompilerState<'a> {
                                         .unwrap()
                                         .as_str()
                                         .parse::<u32>()
-                                        .unwrap(),
+                                        .map_err(|_| self.syntax_error("Invalid bank number", start))?,
                                 )
                             }
                             Rule::superchip => memory = VariableMemory::Superchip,
@@ -1404,14 +1409,14 @@ impl<'a> CompilerState<'a> {
                                                     }
                                                     Rule::ptr_offset => {
                                                         let sign = if x.as_str().starts_with("-") { -1 } else { 1 };
-                                                        let offset = parse_int(
+                                                        let offset = self.parse_int(
                                                             x.into_inner()
                                                                 .next()
                                                                 .unwrap()
                                                                 .into_inner()
                                                                 .next()
                                                                 .unwrap(),
-                                                        );
+                                                        )?;
                                                         match pxx.next() {
                                                         Some(x) => match x.as_rule() {
                                                             Rule::ptr_low => {
@@ -1513,7 +1518,7 @@ impl<'a> CompilerState<'a> {
                                                                 },
                                                                 Rule::ptr_offset => {
                                                                     let sign = if x.as_str().starts_with("-") { -1 } else { 1 };
-                                                                    let offset = parse_int(x.into_inner().next().unwrap().into_inner().next().unwrap());
+                                                                    let offset = self.parse_int(x.into_inner().next().unwrap().into_inner().next().unwrap())?;
                                                                     match pxxx.next() {
                                                                         Some(x) => match x.as_rule() {
                                                                             Rule::ptr_low => {
@@ -1579,7 +1584,7 @@ impl<'a> CompilerState<'a> {
                                                             Some(x) => match x.as_rule() {
                                                                 Rule::ptr_offset => {
                                                                     let sign = if x.as_str().starts_with("-") { -1 } else { 1 };
-                                                                    sign * parse_int(x.into_inner().next().unwrap().into_inner().next().unwrap())
+                                                                    sign * self.parse_int(x.into_inner().next().unwrap().into_inner().next().unwrap())?
                                                                 },
                                                                 _ => return Err(self.syntax_error(&format!("Incorrect suffix to reference {}", s), start))
                                                             },
@@ -1605,7 +1610,7 @@ impl<'a> CompilerState<'a> {
                                                         v.push((s, offset));
                                                     }
                                                     Rule::quoted_string => {
-                                                        let k = self.compile_quoted_string(pxx);
+                                                        let k = self.compile_quoted_string(pxx)?;
                                                         let name = format!(
                                                             "cctmp{}",
                                                             self.literal_counter
@@ -1671,7 +1676,7 @@ impl<'a> CompilerState<'a> {
                                                 start,
                                             ));
                                         }
-                                        let string = self.compile_quoted_string(px);
+                                        let string = self.compile_quoted_string(px)?;
                                         let vb = string.as_bytes();
                                         let mut v = Vec::<VariableValue>::new();
                                         for c in vb.iter() {
@@ -1984,7 +1989,7 @@ impl<'a> CompilerState<'a> {
                         .unwrap()
                         .as_str()
                         .parse::<u32>()
-                        .unwrap();
+                        .map_err(|_| self.syntax_error("Invalid bank number", start))?;
                     if bank != 0 && inline {
                         return Err(
                             self.syntax_error("Bank spec and inlining are incompatible", start)
@@ -2305,26 +2310,32 @@ impl<'a> CompilerState<'a> {
         Ok(())
     }
 
-    fn compile_quoted_string(&self, p: Pair<Rule>) -> String {
+    fn compile_quoted_string(&self, p: Pair<Rule>) -> Result<String, Error> {
         let mut v = String::new();
         let it = p.into_inner();
         for i in it {
-            let j = i.as_str().parse::<usize>().unwrap();
-            v.push_str(&compile_quoted_string_ex(&self.context.literal_strings[j]));
+            // A placeholder the preprocessor did not write names no string
+            let s = i
+                .as_str()
+                .parse::<usize>()
+                .ok()
+                .and_then(|j| self.context.literal_strings.get(j))
+                .ok_or_else(|| self.syntax_error("Unknown string literal", i.as_span().start()))?;
+            v.push_str(&compile_quoted_string_ex(s));
         }
         v.push(char::from_u32(0).unwrap());
-        v
+        Ok(v)
     }
 }
 
-fn parse_int(p: Pair<Rule>) -> i32 {
+fn parse_int(p: Pair<Rule>) -> Option<i32> {
     match p.as_rule() {
-        Rule::decimal => p.as_str().parse::<i32>().unwrap(),
-        Rule::hexadecimal => i32::from_str_radix(&p.as_str()[2..], 16).unwrap(),
-        Rule::octal => i32::from_str_radix(p.as_str(), 8).unwrap(),
+        Rule::decimal => p.as_str().parse::<i32>().ok(),
+        Rule::hexadecimal => i32::from_str_radix(&p.as_str()[2..], 16).ok(),
+        Rule::octal => i32::from_str_radix(p.as_str(), 8).ok(),
         Rule::quoted_character => {
             let s = compile_quoted_string_ex(p.into_inner().next().unwrap().as_str());
-            s.chars().next().unwrap() as i32
+            s.chars().next().map(|c| c as i32)
         }
         _ => {
             unreachable!()
